@@ -22,7 +22,7 @@ WIDE = {"wide": tuple(range(1, 11)), "fib": (1, 2, 3, 5, 8, 13, 21), "near": (8,
 
 
 SEP_TEXT = ("the 1091 objective-separating instances found by complete enumeration of all multisets of 6 items over 1..24 (k=3), 7 over 1..20 (k=3), "
-            "7 over 1..16 (k=4), 8 over 1..14 (k=3) (tools/gen_separating.py): ckk/snp/rnp, dp x 3 objectives x both output families, ilp x 3, cg x 48")
+            "7 over 1..16 (k=4), 8 over 1..14 (k=3) (tools/gen_separating.py): ckk/snp/rnp, dp x 3 objectives x both output families, cg x 3 objectives x {all switches on, all off}; thorough: cg x 48, ilp x 3")
 
 
 def bounds(tier):
@@ -167,8 +167,9 @@ def run_task(task):
             for spec in scopes.CG_OBJECTIVES:
                 for out in ("Sums", "PartitionAndSumsTuple"):
                     _judge(acc, {"algo": "dp", "items": ms, "k": k, "out": out, "kw": {"objective": spec}}, spec)
-                _judge(acc, {"algo": "ilp", "items": ms, "k": k, "out": "Sums", "kw": {"objective": spec}}, spec)
-            for kw in scopes.cg_configs(all_switches=True):
+                if tier != "quick":
+                    _judge(acc, {"algo": "ilp", "items": ms, "k": k, "out": "Sums", "kw": {"objective": spec}}, spec)
+            for kw in scopes.cg_configs(all_switches=(tier != "quick")):
                 _judge(acc, {"algo": "cg", "items": ms, "k": k, "out": "Sums", "kw": kw}, kw["objective"])
         acc.sample({"scope": scope, "items": list(chunk[0][0]), "k": chunk[0][1], "flags": chunk[0][2]})
         O.opt_partition.cache_clear()
